@@ -256,6 +256,28 @@ def install(threads=True):
 
         sco._OperationsWorker.start = _worker_start
         sco._OperationsWorker.join = lambda self, timeout=None: None
+        # the event loop of the async subscription managers: no real thread (its start-up races with the virtual
+        # clock); coroutines run to completion on the caller's thread, which is what run_coro's blocking
+        # `.result()` amounts to
+        from sdc11073.provider import subscriptionmgr_async as sma
+
+        def _loop_start(self):
+            self._running = True
+
+        def _loop_run_coro(self, coro):
+            if not self._running:
+                coro.close()
+                return None
+            return self.loop.run_until_complete(coro)
+
+        def _loop_stop(self):
+            self._running = False
+            if not self.loop.is_closed():
+                self.loop.close()
+
+        sma.AsyncioEventLoopThread.start = _loop_start
+        sma.AsyncioEventLoopThread.run_coro = _loop_run_coro
+        sma.AsyncioEventLoopThread.stop = _loop_stop
     _installed = True
 
 
